@@ -488,10 +488,26 @@ def pipeline(ctx):
                     return (A('VX'), A('VY'))
                 return None
 
+            # The rays of an infinitely distant field point are launched
+            # from a plane, parallel to the direction (L, M, N) the ray
+            # generator gives that field; measured from a common wavefront a
+            # ray launched at (x, y) EPD/2 has the extra optical path
+            # -n_object (L x + M y) EPD/2 (up to a constant of the field).
+            # (L, M) are taken from the generator itself (C03.launch_signs):
+            # M = sy tan(ty) / norm, L = sx tan(tx) / norm,
+            # norm = sqrt(1 + tan(tx)^2 + tan(ty)^2).
+            from .C03 import launch_signs
+            try:
+                sx_, sy_ = launch_signs(P)
+            except Inconclusive as e:
+                raise AnalysisError(f'launch direction of the generator: {e}')
+            if sx_ is None or sy_ is None:
+                raise AnalysisError('launch direction of the generator is '
+                                    'not at the field angle (see C03 AIM)')
             for given in (True, False):
                 def ch2(test, ev, given=given):
                     s_ = unparse(test)
-                    if "field_type == 'angle'" in s_:
+                    if "field_type == 'angle'" in s_ or 'is_infinite' in s_:
                         return True
                     if 'is None' in s_:
                         return not given
@@ -505,44 +521,79 @@ def pipeline(ctx):
                 except Inconclusive as e:
                     raise AnalysisError(f'_correct_tilt: {e}')
                 r2 = e2.returned
-                # theta = Hy * (maximum radial field): the angle the ray
-                # generator launches for normalised field Hy
-                ty = A('self.optic.fields.max_field') * A('Hy') * A('pi') / \
+                ay = A('self.optic.fields.max_field') * A('Hy') * A('pi') / \
                     C(180)
-                base = A('N_OBJECT') * sym2.sin(ty) * A('EPD') / C(2)
+                ax = A('self.optic.fields.max_field') * A('Hx') * A('pi') / \
+                    C(180)
+                tany = sym2.sin(ay) / sym2.cos(ay)
+                tanx = sym2.sin(ax) / sym2.cos(ax)
+                nrm = sym2.sqrt(ONE + tanx * tanx + tany * tany)
+                half = A('N_OBJECT') * A('EPD') / C(2)
+                basey = half * C(sy_) * tany / nrm
+                basex = half * C(sx_) * tanx / nrm
                 if given:
-                    d = sym2.diff(r2, 'PY')
-                    want, var = base, 'the launch coordinate y'
+                    dy_ = sym2.diff(r2, 'PY')
+                    dx_ = sym2.diff(r2, 'PX')
+                    wy, wx, var = basey, basex, 'the launch coordinates'
                 else:
                     # default samples: the pupil distribution compressed by
-                    # the vignetting factor of the field (the launch points)
-                    d = sym2.diff(r2, 'self.distribution.y')
-                    want, var = base * (ONE - A('VY')), 'distribution.y'
-                tx_ = A('self.optic.fields.max_field') * A('Hx') * A('pi') / \
-                    C(180)
-                basex = A('N_OBJECT') * sym2.sin(tx_) * A('EPD') / C(2)
-                if given:
-                    dxv, wantx = sym2.diff(r2, 'PX'), basex
-                else:
-                    dxv = sym2.diff(r2, 'self.distribution.x')
-                    wantx = basex * (ONE - A('VX'))
-                okx_ = sym2.eq(dxv * dxv, wantx * wantx)
-                if sym2.eq(d, want) and okx_ and \
+                    # the vignetting factors of the field (the launch points)
+                    dy_ = sym2.diff(r2, 'self.distribution.y')
+                    dx_ = sym2.diff(r2, 'self.distribution.x')
+                    wy = basey * (ONE - A('VY'))
+                    wx = basex * (ONE - A('VX'))
+                    var = 'distribution.x / .y'
+                if sym2.eq(dy_, wy) and sym2.eq(dx_, wx) and \
                         sym2.eq(sym2.diff(r2, 'opd'), ONE):
-                    res.ok(f'angular fields: d(path)/d({var}) = '
-                           f'n_object EPD/2 sin(Hy max_field)'
-                           f'{"" if given else " (1 - vy)"}')
+                    res.ok(f'angular fields at infinity: d(path)/d({var}) = '
+                           f'n_object EPD/2 (L, M) of the launched bundle'
+                           f'{"" if given else " x (1 - v)"}')
                 else:
                     res.fail(ctx.finding(
                         'SAME-PIPELINE', t, t.node,
                         f'oblique-wavefront correction: d(path)/d({var}) = '
-                        f'{d}, expected {want} (optical path in the object '
-                        f'medium, field angle Hy x maximum radial field, '
-                        f'launch points compressed by the vignetting factor): '
-                        f'paths are not measured from a common wavefront in '
-                        f'object space',
+                        f'({dx_}, {dy_}), expected n_object EPD/2 times the '
+                        f'direction cosines of the bundle the ray generator '
+                        f'launches for this field (x sign {sx_:+d}, y sign '
+                        f'{sy_:+d}, normalised by sqrt(1 + tan^2 + tan^2)), '
+                        f'launch points compressed by the vignetting '
+                        f'factors: paths are not measured from a common '
+                        f'wavefront in object space',
                         construct='tilt derivative' if given else
                         'tilt derivative default samples'))
+            # a finite object point needs no correction, whatever the field
+            # type: the rays start on the object point itself
+            def ch3(test, ev):
+                s_ = unparse(test)
+                if 'is_infinite' in s_ and "field_type == 'angle'" in s_:
+                    return False        # angle and not infinite
+                if 'is_infinite' in s_:
+                    return False
+                if "field_type == 'angle'" in s_:
+                    return True
+                if 'is None' in s_:
+                    return False
+                return None
+            e3 = Ev(sym=Sym(), inline=inl2, choose=ch3)
+            e3.env['field'] = (A('Hx'), A('Hy'))
+            e3.env['opd'] = A('opd')
+            e3.env['x'], e3.env['y'] = A('PX'), A('PY')
+            try:
+                e3.run(t.node.body)
+                fin_ok = isinstance(e3.returned, Rat) and \
+                    rat_eq(e3.returned, A('opd'))
+            except Inconclusive as e:
+                raise AnalysisError(f'_correct_tilt (finite object): {e}')
+            if fin_ok:
+                res.ok('finite object with angular fields: no correction')
+            else:
+                res.fail(ctx.finding(
+                    'SAME-PIPELINE', t, t.node,
+                    'the plane-wave tilt correction is applied to a finite '
+                    'object with angular fields, whose rays start on the '
+                    'object point: f/50 singlet at 2 deg reports 246 waves '
+                    'PV instead of 0.08',
+                    construct='tilt correction for a finite object'))
         else:
             res.fail(ctx.finding('SAME-PIPELINE', t, t.node,
                                  'tilt correction alters height-field paths',
